@@ -18,6 +18,10 @@ SPEC = dict(
                  I('scram_first_kf', 'h_scram_first_kf', (2, 2, 1), known_finding=KF_USER, bound='as scram_first'),
                  I('scram_exchange', 'h_scram_exchange', (2, 0, 1, 3, 2, 1), unwind=12,
                    bound='client nonce 2 bytes, server nonce field 3 bytes, salt field 2 bytes, iteration field 1 byte (all arbitrary, no ","), password 1 unit, all 4 SCRAM hashes; server-final v= arbitrary 4-byte signature'),
+                 I('scram_exchange_long', 'h_scram_exchange', (3, 0, 2, 5, 4, 2), unwind=16, tiers=('thorough',), timeout_s=300, cdefs={'QB_CAP': 64}, model_loop_bound=66,
+                   bound='client nonce 3 bytes, server nonce field 5, salt field 4, iteration field 2, password 2 units'),
+                 I('scram_exchange_user', 'h_scram_exchange', (2, 1, 1, 3, 2, 1), unwind=12, tiers=('thorough',), timeout_s=300,
+                   bound='as scram_exchange with a 1-unit user name'),
                  I('scram_refuse_attrs', 'h_scram_refuse_attrs', (1, 0, 1, 2), unwind=12,
                    bound='3 attributes "k e v v" of 4 arbitrary bytes each (no "," inside), client nonce 1 byte'),
                  I('scram_final_any', 'h_scram_final_any', (1, 1, 1), unwind=12, bound='server-final = 10 arbitrary bytes without ",", arbitrary stored signature of 4 bytes'),
@@ -27,8 +31,6 @@ SPEC = dict(
                  I('ht', 'h_ht', (2, 2), bound='user name 2 units, token 2 units, all 7 hash names x all 4 channel-binding types for the stored token, challenge 0..1 bytes'),
                  I('hash_names', 'h_ht_alg', (), unwind=4, bound='all mechanism hash names'),
              ]),
-        dict(name='digest', harness='h_digest.cpp', tus=[], models=MODELS, loop_bounds={r'^_ZN13QConcatenableI10QByteArrayE8appendTo': 48, r'^_ZN18QXmppSaslDigestMd516serializeMessage': 24, r'^_ZN18QXmppSaslDigestMd512parseMessage': 6},
-             instances=[I('digest_parse_probe', 'h_digest_parse_probe', (1,), unwind=12, timeout_s=100, model_loop_bound=20), I('digest_rspauth', 'h_digest_rspauth', (), unwind=12), I('digest_roundtrip', 'h_digest_roundtrip', (1,), unwind=12)]),
         dict(name='mgr', harness='h_mgr.cpp', tus=['src/base/QXmppSasl.cpp', 'src/base/QXmppUtils.cpp', 'src/base/QXmppStreamManagement.cpp'], models=MODELS,
              ranges_shim=True, shadow_task=True, cxxdefs={'_GLIBCXX_RANGES': 1},
              loop_bounds={r'^_Z8qstrnlenPKcj': 40, r'^_ZN13QConcatenableI10QByteArrayE8appendTo': 48},
@@ -57,7 +59,7 @@ SPEC = dict(
         'managers: QXmppTask/QXmppPromise = assume-guarantee shadow (C13); serializeXml is cut (the bytes sent are not inspected, only counted)',
     ],
     outside=[
-        'DIGEST-MD5 (respond, calculateDigest, parseMessage/serializeMessage): not covered in this round',
+        'DIGEST-MD5 (respond, calculateDigest, parseMessage/serializeMessage): no instance registered - the harness h_digest.cpp (rspauth acceptance iff RFC 2831 digest, quoting round trip) reaches no verdict within the quick cap because parseMessage on symbolic text makes every length symbolic; the needed models (QMap<QByteArray,QByteArray>, toHex, trimmed, replace, QString::arg) are in c06_models.c',
         'parseGS2 on messages whose values contain "," (more than the stated number of pieces), server messages longer than the stated field lengths',
         'non-ASCII user names / passwords, SASLprep, channel binding (gs2 header is always "n,,"), real digest lengths (only the dkLen argument = hash length is checked)',
         'contents of the <response/> / <abort/> stanzas written by the managers; FAST token handling; Sasl2 <continue/> tasks',
